@@ -321,6 +321,56 @@ def corpus_cases(ctx):
     return out
 
 
+def duplicate_ports(ctx):
+    """The theorems assume that a micro-op's port collection names no port twice (ctx.assumptions).  Check it on the shipped data --
+    a compact port string is read character by character, so `'2311'` is ports 2, 3, 1, 1 -- and, where it fails, analyse one such
+    instruction form in a kernel that makes the balancer move it: the index list then holds one index twice and the write-back of
+    the balanced values overwrites an updated cell with a stale one."""
+    import models
+    found = []
+    for a in models.nonempty_archs():
+        try:
+            mm, sem = models.load(a)
+        except Exception:
+            continue
+        rows = [(getattr(e, "mnemonic", None) or (e.get("name") if isinstance(e, dict) else None),
+                 getattr(e, "port_pressure", None) if not isinstance(e, dict) else e.get("port_pressure")) for e in mm._data.get("instruction_forms", [])]
+        for kind in ("load_throughput", "store_throughput"):
+            rows += [(kind, getattr(r, "port_pressure", None) if not isinstance(r, dict) else r.get("port_pressure")) for r in (mm._data.get(kind) or [])]
+        for name, pp in rows:
+            for alt in (list(pp.values()) if isinstance(pp, dict) else [pp or []]):
+                for u in alt or []:
+                    try:
+                        ps = list(u[1])
+                    except Exception:
+                        continue
+                    if len(set(ps)) != len(ps):
+                        found.append((a, str(name), [float(u[0]), ps], [[float(x[0]), list(x[1])] for x in alt]))
+    ctx.obligation("assumption of the feasibility theorems holds for the shipped data: no micro-op names a port twice", "assumption", not found,
+                   "; ".join("%s %s %s" % (a, n, u) for a, n, u, _ in found[:6]))
+    ctx.coverage["shipped_uops_with_duplicate_port"] = len(found)
+    seen = set()
+    for a, name, u, alt in found:
+        if (a, json.dumps(alt)) in seen or len(seen) >= 4:
+            continue
+        seen.add((a, json.dumps(alt)))
+        mm, sem = models.load(a)
+        ports = list(mm.get_ports())
+        others = [p for p in ports if p in u[1]]
+        # the form with the repeated port next to single-port work on each of its ports, optimised once
+        forms = [{"tp": 1.0, "uops": alt}] + [{"tp": 1.0, "uops": [[float(k + 1), [p]]]} for k, p in enumerate(dict.fromkeys(others))]
+        for mode in ("uniform", "once"):
+            case = {"ports": ports, "forms": forms, "kernel": list(range(len(forms))), "mode": mode}
+            out = pressure.run_impl(case)
+            ctx.count()
+            if out[0] != "ok":
+                ctx.violation(mode + ":raises", "%s %s with micro-ops %s (a port named twice): the balancer raises %s" % (a, name, alt, out[2][:120]), {"case": case, "kind": "raises"})
+                continue
+            for kind, text in pressure.feasibility(case, out):
+                if kind != "crash":
+                    ctx.violation(mode + ":" + kind, "shipped form %s of %s, micro-ops %s (a port named twice), mode %s: %s" % (name, a, alt, mode, text), {"case": case, "kind": kind})
+
+
 def run(ctx):
     ctx.trusted += ["binary64 model Model/Num.v: Coq primitive floats + CPython's round/sum algorithms, validated against CPython every run",
                     "hand-written model Model/Pressure.v tied to the code only by the bit-exact correspondence (generator quality bounds it)",
@@ -338,6 +388,7 @@ def run(ctx):
         run_cases(ctx, co, "corpus")
     fam2 = family2_cases(ctx)
     run_cases(ctx, fam2, "family2")
+    duplicate_ports(ctx)
     syn = synthetic(ctx, ctx.n(320, 6400))
     run_cases(ctx, syn, "synthetic")
     tiny = synthetic(ctx, ctx.n(160, 3200), tiny=True)   # shares of the order of the balancing step (exact zeros, shares rounding to 0.00)
